@@ -5,3 +5,5 @@ import SfModel.G711
 import SfModel.Pcm
 import SfModel.Handle
 import SfModel.Chunk
+import SfModel.Adpcm
+import SfModel.AdpcmSpec
